@@ -200,6 +200,8 @@ func execPipeline(it []hx.Sx) hx.Sx {
 		switch {
 		case cd.re != nil:
 			mf[selector(cd.path)] = "/" + *cd.re + "/"
+		case i%2 == 1 && len(cd.nums) == 1 && len(cd.vals) == 0:
+			mf[selector(cd.path)] = cd.nums[0] // a lone number written as a scalar (yaml `code: 500`): refused since /repo fix 4c267b0
 		case len(cd.nums) > 0:
 			l := []any{}
 			for _, v := range cd.vals {
